@@ -36,7 +36,7 @@ func Shrink(spec *props.Spec, j *Job) *ShrinkOut {
 	}
 	try := func(t []uint32) *eng.Result {
 		out.Execs++
-		res := Exec(spec, sim.ReplayTape(t), j.Tier, true)
+		res := Exec(spec, sim.ReplayTapeCap(t, tapeCap(spec)), j.Tier, true)
 		if res.Viol != nil && res.Viol.Class() == j.Class {
 			return res
 		}
@@ -135,7 +135,7 @@ func Shrink(spec *props.Spec, j *Job) *ShrinkOut {
 		out.GaveUp = "budget"
 	}
 	// Final re-execution for a clean, detailed result.
-	final := Exec(spec, sim.ReplayTape(best), j.Tier, true)
+	final := Exec(spec, sim.ReplayTapeCap(best, tapeCap(spec)), j.Tier, true)
 	if final.Viol == nil || final.Viol.Class() != j.Class {
 		out.Internal = "minimised tape stopped reproducing"
 		final = bestRes
